@@ -409,14 +409,21 @@ func EdgeOutcome(prog *core.Program, from, to *ssa.BasicBlock, fk FailKind) (boo
 	visited := map[string]bool{}
 	var why string
 	steps := 0
-	var dfs func(pred, b *ssa.BasicBlock, env *pathEnv, depth int) bool
-	dfs = func(pred, b *ssa.BasicBlock, env *pathEnv, depth int) bool {
+	var dfs func(pred, b *ssa.BasicBlock, env *pathEnv, depth int, inherited map[*ssa.Phi]ssa.Value) bool
+	dfs = func(pred, b *ssa.BasicBlock, env *pathEnv, depth int, inherited map[*ssa.Phi]ssa.Value) bool {
 		steps++
 		if steps > 20000 || depth > 400 {
 			why = "path exploration limit reached"
 			return false
 		}
-		key := fmt.Sprintf("%d<%d|%s", b.Index, pred.Index, envKey(env))
+		var pk []string
+		for k, v := range inherited {
+			if k.Block() != b && k.Block().Dominates(b) {
+				pk = append(pk, k.Name()+"="+v.Name())
+			}
+		}
+		sort.Strings(pk)
+		key := fmt.Sprintf("%d<%d|%s|%s", b.Index, pred.Index, envKey(env), strings.Join(pk, ","))
 		if visited[key] {
 			return true
 		}
@@ -424,8 +431,15 @@ func EdgeOutcome(prog *core.Program, from, to *ssa.BasicBlock, fk FailKind) (boo
 		if b == fn.Recover {
 			return true
 		}
-		// phi resolution for this edge
+		// phi resolution for this edge; phis resolved earlier on this path stay resolved in the blocks they
+		// dominate (two results of an inlined helper merged by two phis in one block: the branch on the first
+		// and the return of the second, one block later, belong to the same incoming edge)
 		phis := map[*ssa.Phi]ssa.Value{}
+		for k, v := range inherited {
+			if k.Block() != b && k.Block().Dominates(b) {
+				phis[k] = v
+			}
+		}
 		pi := -1
 		for i, p := range b.Preds {
 			if p == pred {
@@ -491,6 +505,28 @@ func EdgeOutcome(prog *core.Program, from, to *ssa.BasicBlock, fk FailKind) (boo
 					decided = 1
 				}
 			}
+			// "if err != nil" right after an inlined helper's "return ..., errors.New(..)" / "return ..., nil":
+			// the phi that merges the helper's results is resolved along this edge, so the test is decided
+			if x, y, rel, ok := CondCmp(iff.Cond); ok && decided < 0 && (rel == token.EQL || rel == token.NEQ) {
+				if yc, isC := resolve(y, phis, env).(*ssa.Const); isC && yc.Value == nil {
+					xr := resolve(x, phis, env)
+					isNil, known := false, false
+					if xc, isC := xr.(*ssa.Const); isC && xc.Value == nil {
+						isNil, known = true, true
+					} else if env.isnil[xr] {
+						isNil, known = true, true
+					} else if isFailureValue(xr, FailKind{Kind: "nonnil"}, env) {
+						isNil, known = false, true
+					}
+					if known {
+						if isNil == (rel == token.EQL) {
+							decided = 0
+						} else {
+							decided = 1
+						}
+					}
+				}
+			}
 		}
 		for si, s := range b.Succs {
 			if decided >= 0 && si != decided {
@@ -499,13 +535,13 @@ func EdgeOutcome(prog *core.Program, from, to *ssa.BasicBlock, fk FailKind) (boo
 			ne := env.clone()
 			// carry resolved phis that are cells? (phis are only needed inside the block and for conditions)
 			applyEdgeFactsResolved(b, s, ne, phis)
-			if !dfs(b, s, ne, depth+1) {
+			if !dfs(b, s, ne, depth+1, phis) {
 				return false
 			}
 		}
 		return true
 	}
-	ok := dfs(from, to, env, 0)
+	ok := dfs(from, to, env, 0, nil)
 	return ok, why
 }
 
@@ -746,6 +782,34 @@ func AcceptingReturnPossible(ret *ssa.Return, fk FailKind) bool {
 	}
 	if fk.Result >= len(ret.Results) {
 		return true
+	}
+	// a return that sits under a test of the very value it returns ("if er != nil { return }") carries
+	// the tested outcome, whatever the value's other sources are
+	{
+		cs := DomConds(ret.Block())
+		e := Expr(ret.Results[fk.Result])
+		switch fk.Kind {
+		case "nonnil":
+			if HasCond(cs, "("+e+" != nil)", true) {
+				return false
+			}
+		case "nil":
+			if HasCond(cs, "("+e+" == nil)", true) {
+				return false
+			}
+		case "false":
+			for _, c := range cs {
+				if c.Cond == e && !c.True {
+					return false
+				}
+			}
+		case "true":
+			for _, c := range cs {
+				if c.Cond == e && c.True {
+					return false
+				}
+			}
+		}
 	}
 	var vals []ssa.Value
 	seen := map[ssa.Value]bool{}
